@@ -55,6 +55,24 @@ def is_needed_len(s):
     return False
 
 
+def writer_slots(rt, ctor_suffix):
+    """functions installed in the `grow` / `flush` slots of the DiplomatWrite a constructor builds (resolved through the aggregate's fn pointers)"""
+    f = rt.fn(ctor_suffix)
+    mf = MirFn(f)
+    out = {}
+    for b in mf.mir["blocks"]:
+        for s_ in b["stmts"]:
+            if s_["k"] == "assign" and s_["rv"]["k"] == "agg" and (s_["rv"].get("adt") or "").endswith("::DiplomatWrite"):
+                fields = dict(zip(s_["rv"]["fnames"], [mf.sym_op(o) for o in s_["rv"]["ops"]]))
+                for slot in ("grow", "flush"):
+                    x = sym_strip(fields.get(slot))
+                    while isinstance(x, tuple) and x[0] in ("cast", "ptrcast"):
+                        x = x[2] if x[0] == "cast" else x[1]
+                    if isinstance(x, tuple) and x[0] == "fn" and x[1] in rt.fns:
+                        out[slot] = rt.fns[x[1]]
+    return out
+
+
 def run(ck, facts):
     rt = facts.runtime
     ck.units.append("diplomat_runtime.lib (MIR, mir-opt-level=0)")
@@ -264,13 +282,18 @@ def run(ck, facts):
                 v = mf.sym_rv(st["rv"])
                 ck.expect(v == ("const", "true"), "R3", "%s/grow_failed-store" % f["path"], "only ever set to true", "grow_failed is assigned %s (flag must be sticky)" % sym_show(v), C.loc(f, st.get("ln")))
     # who may write: the functions that store the bookkeeping fields or write through `buf` are exactly the ones R1-R6/R10 analyse
+    ws_path = "<diplomat_runtime::write::DiplomatWrite as core::fmt::Write>::write_str"
+    simple = writer_slots(rt, "diplomat_simple_write")
+    buffer = writer_slots(rt, "diplomat_buffer_write_create")
+    role_of = {ws_path: "write_str"}
+    if simple.get("flush"):
+        role_of[simple["flush"]["path"]] = "simple_write.flush"
+    if buffer.get("grow"):
+        role_of[buffer["grow"]["path"]] = "buffer_write.grow"
     WRITERS = {
-        ("<diplomat_runtime::write::DiplomatWrite as core::fmt::Write>::write_str", "store.grow_failed"),
-        ("<diplomat_runtime::write::DiplomatWrite as core::fmt::Write>::write_str", "store.len"),
-        ("<diplomat_runtime::write::DiplomatWrite as core::fmt::Write>::write_str", "write-through-buf"),       # R1-R4
-        ("diplomat_runtime::write::diplomat_simple_write::flush", "write-through-buf"),                          # R6 (the NUL)
-        ("diplomat_runtime::write::diplomat_buffer_write_create::grow", "store.cap"),                            # R10
-        ("diplomat_runtime::write::diplomat_buffer_write_create::grow", "store.buf"),                            # R10
+        ("write_str", "store.grow_failed"), ("write_str", "store.len"), ("write_str", "write-through-buf"),   # R1-R4
+        ("simple_write.flush", "write-through-buf"),                                                          # R6 (the NUL)
+        ("buffer_write.grow", "store.cap"), ("buffer_write.grow", "store.buf"),                               # R10
     }
     RAWW = re.compile(r"(ptr::write|copy_nonoverlapping|ptr::copy|write_bytes|write_unaligned|write_volatile|mut_ptr::<impl \*mut T>::(write|copy_from|copy_from_nonoverlapping|write_bytes|copy_to|copy_to_nonoverlapping))$")
     seen_w = set()
@@ -293,16 +316,16 @@ def run(ck, facts):
             elif re.search(r"slice::raw::from_raw_parts_mut$", cal) and any(x[0] == "proj" and x[2] == ".buf" for a in t["args"] for x in sym_walk(mf.sym_op(a)) if isinstance(x, tuple) and len(x) > 2):
                 found.append(("write-through-buf", t.get("ln")))
         for kind, ln in found:
-            k = (f["path"], kind)
+            k = (role_of.get(f["path"], f["path"]), kind)
             if k in seen_w:
                 continue
             seen_w.add(k)
-            ck.expect(k in WRITERS, "R8", "writer/%s/%s" % (f["path"], kind), "analysed by R1-R6/R10",
+            ck.expect(k in WRITERS, "R8", "writer/%s/%s" % (k[0], kind), "analysed by R1-R6/R10",
                       "%s now %s of a DiplomatWrite but is not one of the functions whose bounds/flag discipline is analysed (write_str, simple_write::flush, create::grow): "
                       "a second write path must obey the same sticky-flag, bounded-copy and len-after-copy rules" % (f["path"], "writes through `buf`" if kind == "write-through-buf" else "stores `%s`" % kind[6:]), C.loc(f, ln))
     for k in WRITERS - seen_w:
         ck.bad("R8", "writer/%s/%s" % k, "expected writer site not found (anchor moved?)")
-    adt = rt.adt("write::DiplomatWrite")
+    adt = rt.adt("DiplomatWrite")
     ck.expect(adt["repr_c"], "R8", "DiplomatWrite/repr(C)", "", "DiplomatWrite is not repr(C)")
     for fld in adt["variants"][0]["fields"]:
         ck.expect(not fld["vis"].startswith("Public"), "R8", "DiplomatWrite.%s/private" % fld["name"], fld["vis"], "field %s of DiplomatWrite is public: the bookkeeping invariant can be broken by any crate" % fld["name"], C.loc(adt))
@@ -310,7 +333,7 @@ def run(ck, facts):
 
     # --- R5 accessors
     for name, field, nullish in (("diplomat_buffer_write_get_bytes", "buf", "null"), ("diplomat_buffer_write_len", "len", "zero")):
-        f = rt.fn("write::" + name)
+        f = rt.fn(name)
         mf = MirFn(f)
         c0 = mf.switch_cond(0)
         if not (c0 and sym_is_field(sym_strip(c0), is_self, "grow_failed")):
@@ -347,12 +370,12 @@ def run(ck, facts):
                 ck.expect(good, "R5", name + "/ok-edge", "returns this.%s" % field, "on the ok edge the accessor returns %s, expected this.%s" % (sym_show(val), field), C.loc(f))
 
     # --- R6 fixed writer
-    f = rt.fn("write::diplomat_simple_write")
+    f = rt.fn("diplomat_simple_write")
     mf = MirFn(f)
     agg = None
     for b in mf.mir["blocks"]:
         for s in b["stmts"]:
-            if s["k"] == "assign" and s["rv"]["k"] == "agg" and (s["rv"].get("adt") or "").endswith("write::DiplomatWrite"):
+            if s["k"] == "assign" and s["rv"]["k"] == "agg" and (s["rv"].get("adt") or "").endswith("::DiplomatWrite"):
                 agg = s
     if not agg:
         ck.bad("R6", "diplomat_simple_write/ctor", "no DiplomatWrite construction found", C.loc(f))
@@ -398,7 +421,9 @@ def run(ck, facts):
             ck.expect(okw, "R6", "diplomat_simple_write/flush-nul", detail, "flush must store exactly one 0 byte at buf.add(len); found %s, %d raw stores" % (detail or len(writes), len(st)), C.loc(ff))
 
     # --- R10 Rust-owned grow
-    f = rt.fn("write::diplomat_buffer_write_create::grow")
+    f = writer_slots(rt, "diplomat_buffer_write_create").get("grow")
+    if f is None:
+        raise C.CheckError("cannot resolve the grow callback installed by diplomat_buffer_write_create")
     mg = MirFn(f)
     calls = {}
     for bb, t in mg.calls():
